@@ -299,6 +299,27 @@ Section Proofs.
         rewrite !app_assoc. apply Permutation_app_tail. apply Permutation_app_comm.
   Qed.
 
+  (* the invariant by itself (without reference to an input): what `add_input` and `merge`
+     preserve.  alive = number of live slots, heap entries = live slots, alive <= k. *)
+  Definition InvK (k : nat) (a : pracc) : Prop := Inv a /\ pk a = k /\ palive a <= k.
+  Lemma InvK_R : forall k a, InvK k a -> R k a (live_vals (pstore a)).
+  Proof.
+    intros k a [HI [Hk Hle]]. split; [exact HI|]. split; [exact Hk|]. split.
+    - unfold live_vals. rewrite map_length. destruct HI as [_ Hc]. lia.
+    - exists []. rewrite app_nil_r. apply Permutation_refl.
+  Qed.
+  Lemma R_InvK : forall k a m, R k a m -> InvK k a.
+  Proof. intros k a m [HI [Hk [Hal _]]]. split; [exact HI|]. split; [exact Hk|lia]. Qed.
+  Theorem invariant_preserved : forall k seed,
+    InvK k (create k seed) /\
+    (forall a v, InvK k a -> InvK k (add a v)) /\
+    (forall a b, InvK k a -> InvK k b -> InvK k (merge a b)).
+  Proof.
+    intros k seed. split; [exact (R_InvK _ _ _ (R_create k seed))|]. split.
+    - intros a v H. exact (R_InvK _ _ _ (R_add _ _ _ v (InvK_R _ _ H))).
+    - intros a b Ha Hb. exact (R_InvK _ _ _ (R_merge _ _ _ _ _ (InvK_R _ _ Ha) (InvK_R _ _ Hb))).
+  Qed.
+
   (* ------------------------------------------------------------ finish *)
   Lemma sort_insert_perm : forall (x : N * nat * T) l, Permutation (sort_insert x l) (x :: l).
   Proof.
@@ -365,6 +386,16 @@ Section Proofs.
   | built_add : forall a m v, built k seed a m -> built k seed (add a v) (m ++ [v])
   | built_merge : forall a m b m',
       built k seed a m -> built k seed b m' -> built k seed (merge a b) (m ++ m').
+  Lemma built_fold_add : forall k seed rows a m,
+    built k seed a m -> built k seed (fold_left add rows a) (m ++ rows).
+  Proof.
+    intros k seed rows. induction rows as [|v r IH]; intros a m H; cbn [fold_left].
+    - rewrite app_nil_r. exact H.
+    - replace (m ++ v :: r) with ((m ++ [v]) ++ r) by (rewrite <- app_assoc; reflexivity).
+      apply IH. apply built_add. exact H.
+  Qed.
+  Lemma built_local : forall k seed rows, built k seed (local k seed rows) rows.
+  Proof. intros. unfold local. apply (built_fold_add k seed rows _ []). apply built_create. Qed.
   Lemma built_R : forall k seed a m, built k seed a m -> R k a m.
   Proof.
     intros k seed a m H. induction H as [|a m v H IH|a m b m' Ha IHa Hb IHb].
